@@ -137,7 +137,7 @@ def p_blocks(rng: Any, form: int | None = None) -> tuple[str, list[Any]]:
         diag_blocks = [gen.atom(rng, l, exclude=('polarizer',)) for l in leafs]
         row_blocks = [gen.leaf_connector(rng, d.out_structure(), common)
                       if gen.is_sds(d.out_structure()) else None for d in diag_blocks]
-        if any(b is None for b in row_blocks) or n < 2:
+        if any(b is None for b in row_blocks):
             return p_blocks(rng, form)
         c = _block_container(rng, row_blocks)
         return 'blocks/row@diag', [BlockRowOperator(c), BlockDiagonalOperator(_same_container(c, row_blocks, diag_blocks))]
@@ -288,6 +288,13 @@ def p_nearmiss(rng: Any) -> tuple[str, list[Any]]:
             return 'nearmiss/moveaxis-other-signs', [left, m]
         m = gen.a_moveaxis(rng, st)
         return 'moveaxis/MT@M', [m.T, m]
+    if form == 5 and rng.integers(2):
+        # r1.T @ r2 where r1 and r2 have the same output structure but different input structures: not an identity
+        dt = _dt(rng)
+        a, b = pick(rng, [((3, 2), (2, 3)), ((2, 3), (6,)), ((2, 2, 3), (4, 3)), ((6,), (3, 2))])
+        r1 = ReshapeOperator((-1,), in_structure=S(a, dt)) if rng.integers(2) else RavelOperator(in_structure=S(a, dt))
+        r2 = ReshapeOperator((-1,), in_structure=S(b, dt))
+        return 'nearmiss/reshape.T@reshape-other-input', [r1.T, r2]
     if form == 5:      # the transpose of one reshape next to another reshape object with the same shapes
         r1 = gen.a_reshape(rng, s)
         r2 = ReshapeOperator(tuple(gen.leaves(r1.out_structure())[0].shape), in_structure=s)
